@@ -5,7 +5,7 @@
 From Coq Require Import ZArith.
 From mathcomp Require Import all_ssreflect all_algebra.
 Require Import C16.Model C16.ProofsClosed.
-Require Import C06.Model C06.ProofsAlg C06.ProofsKron C06.ProofsKpad C06.Bridge C06.ProofsTri C06.ProofsGen C06.ProofsSelect.
+Require Import C06.Model C06.ProofsAlg C06.ProofsKron C06.ProofsKpad C06.Bridge C06.ProofsTri C06.ProofsGen C06.ProofsSelect C06.ProofsClass C06.ProofsTree.
 Set Implicit Arguments. Unset Strict Implicit. Unset Printing Implicit Defensive.
 Import Order.Theory GRing.Theory Num.Theory.
 Local Open Scope ring_scope.
@@ -397,6 +397,176 @@ Theorem C06_model_matmul_is_mulmx m k n (X Y : matrix T) :
 Proof. by split; [apply: mx_of_mmul | apply: mx_of_mtr]. Qed.
 End ModelGeneric.
 
+
+(* ================================================================== per-class theorems: the records `alg e` of Model.v
+   (one per operator object, every override transcribed) satisfy the factorisation contracts.  rcf arithmetic, all sizes,
+   every method / cache state / settings.  The contracts of the ORACLES on the matrices they are called with are the
+   hypotheses (eigh_contract: orthonormal eigenbasis with eigenvalues >= 0 = PSD; lz_*_contract: the Lanczos functions
+   when exact; pivchol_contract; pinverse), `pd n A` = square, symmetric, Cholesky recursion meets positive pivots only. *)
+Section ModelClasses.
+Variable R : rcfType.
+Notation T := (carrier R).
+Notation arR := (ArRcf R).
+Notation mx := (@mx_of R).
+Notation rv := (@rv_of R).
+Variables (orc : oracles T) (st : settings T).
+Notation algR := (alg arR orc st).
+
+(* dense-backed operators (Dense, Toeplitz, Sum, Mul, Matmul, user subclasses ...): cholesky(upper) for both orientations:
+   exactly one cholesky_ex, no jitter, L lower triangular with positive diagonal, L L^T = A; the upper variant R^T R = A *)
+Theorem C06_model_dense_cholesky_valid n (A : matrix T) :
+  Nat.eqb n 1 = false -> pd n A ->
+  let a := algR (EDense n A) in
+  let L := ProofsLoop.fac T (chol_kernel arR) A in
+  [/\ pub_cholesky arR a false = (Ok L, (EvChol n :: nil)%list),
+      pub_cholesky arR a true = (Ok (mtr arR n n L), (EvChol n :: nil)%list),
+      mx n n L *m (mx n n L)^T = mx n n A /\ is_trig_mx (mx n n L) /\ (forall i : 'I_n, 0 < mx n n L i i)
+    & (mx n n (mtr arR n n L))^T *m mx n n (mtr arR n n L) = mx n n A /\ is_trig_mx (mx n n (mtr arR n n L))^T].
+Proof. by move=> n1 Hpd; apply: dense_cholesky_valid. Qed.
+
+(* root_decomposition(method): R R^T = A for EVERY method / cache / settings *)
+Theorem C06_model_dense_root_valid n (A : matrix T) c meth :
+  pd_dense n A -> eigh_contract orc n A -> lz_diag_contract orc n A -> lz_root_contract orc n A ->
+  pivchol_contract orc n A ->
+  root_ok n A (a_root (algR (EDense n A)) c meth).
+Proof. by apply: dense_root_valid. Qed.
+
+(* root_inv_decomposition(method): A (R R^T) = I for EVERY method / cache / settings (eigenvalues >= the clamp 1e-7) *)
+Theorem C06_model_dense_root_inv_valid n (A : matrix T) c meth :
+  0 < (eps_inv st : R) ->
+  pd_dense n A -> eigh_contract orc n A -> eigh_lower orc st n A ->
+  lz_diag_contract orc n A -> lz_diag_inv_contract orc st n A -> lz_root_contract orc n A -> pivchol_contract orc n A ->
+  (forall Rt k, fst (a_root (algR (EDense n A)) c MNone) = Ok (Rt, k) ->
+     k = n /\ mx n n (o_pinv orc Rt) *m mx n n Rt = 1%:M) ->
+  rootinv_ok n A (a_rootinv (algR (EDense n A)) c meth).
+Proof. by apply: dense_root_inv_valid. Qed.
+
+(* DiagLinearOperator with a positive diagonal: every method, the eigen-based ones included (SPECIFIED behaviour;
+   the pinned tree violates it for symeig / diagonalization / svd: known finding C06-diag-eigen-route) *)
+Theorem C06_model_diag_root_valid (d : list T) c meth :
+  let n := length d in let A := mdiag arR n d in
+  (forall j, 0 < rv n d 0 j) ->
+  (forall k, diag_ok n A (base_lz_diag orc n A k)) ->
+  (forall k, mx n (ncols (o_pivchol orc A k)) (o_pivchol orc A k) *m
+             (mx n (ncols (o_pivchol orc A k)) (o_pivchol orc A k))^T = mx n n A) ->
+  root_ok n A (a_root (algR (EDiag d)) c meth).
+Proof. by move=> n A dpos Hd Hp; exact: (diag_root_valid dpos Hd Hp). Qed.
+
+Theorem C06_model_diag_root_inv_valid (d : list T) c meth :
+  let n := length d in let A := mdiag arR n d in
+  (forall j, 0 < rv n d 0 j) ->
+  0 < (eps_inv st : R) -> (forall j, (eps_inv st : R) <= rv n d 0 j) ->
+  (forall k, diag_ok n A (base_lz_diag orc n A k)) ->
+  (forall k, diag_full_ok n A (base_lz_diag orc n A k) /\
+             (forall w Q kk, fst (base_lz_diag orc n A k) = Ok (w, Q, kk) -> eps_ok st kk w)) ->
+  (forall k, mx n (ncols (o_pivchol orc A k)) (o_pivchol orc A k) *m
+             (mx n (ncols (o_pivchol orc A k)) (o_pivchol orc A k))^T = mx n n A) ->
+  (forall Rt k, fst (a_root (algR (EDiag d)) c MNone) = Ok (Rt, k) ->
+     k = n /\ mx n n (o_pinv orc Rt) *m mx n n Rt = 1%:M) ->
+  rootinv_ok n A (a_rootinv (algR (EDiag d)) c meth).
+Proof. by move=> n A dpos e0 de Hd Hdi Hp Hpi; exact: (diag_root_inv_valid dpos e0 de Hd Hdi Hp Hpi). Qed.
+
+(* KroneckerProductLinearOperator with ANY number of factors of ANY classes (induction over the factor list):
+   above max_cholesky_size the (inverse) root is correct whenever the factors' (inverse) roots are *)
+Theorem C06_model_kron_root_valid (ops : list (expr T)) c m :
+  let a := algR (EKron ops) in
+  Z.leb (Z.of_nat (a_n a)) (mcs st) = false ->
+  List.Forall (fun e => root_ok (a_n (algR e)) (a_dense (algR e)) (a_root (algR e) no_cache m)) ops ->
+  root_ok (a_n a) (a_dense a) (a_root a c m).
+Proof. by apply: kron_root_valid_model. Qed.
+
+Theorem C06_model_kron_root_inv_valid (ops : list (expr T)) c m :
+  let a := algR (EKron ops) in
+  Z.leb (Z.of_nat (a_n a)) (mcs st) = false ->
+  List.Forall (fun e => rootinv_ok (a_n (algR e)) (a_dense (algR e)) (a_rootinv (algR e) no_cache MNone)) ops ->
+  rootinv_ok (a_n a) (a_dense a) (a_rootinv a c m).
+Proof. by apply: kron_root_inv_valid_model. Qed.
+
+(* ... _symeig (eigh / eigvalsh / diagonalization) and cholesky() at every size: orthonormal eigenbasis, eigenvalues >= 0,
+   Q diag(w) Q^T = A;  L lower triangular, non-zero diagonal, L L^T = A *)
+Theorem C06_model_kron_symeig_valid (ops : list (expr T)) :
+  let a := algR (EKron ops) in
+  List.Forall (fun e => symeig_ok (a_n (algR e)) (a_dense (algR e)) (a_symeig (algR e))) ops ->
+  symeig_ok (a_n a) (a_dense a) (a_symeig a).
+Proof. by apply: kron_symeig_valid_model. Qed.
+
+Theorem C06_model_kron_cholesky_valid (ops : list (expr T)) :
+  let a := algR (EKron ops) in
+  List.Forall (fun e => chol_tri_ok (a_n (algR e)) (a_dense (algR e)) (pub_cholesky arR (algR e) false)) ops ->
+  chol_tri_ok (a_n a) (a_dense a) (pub_cholesky arR a false).
+Proof. by apply: kron_cholesky_valid_model. Qed.
+
+Theorem C06_model_kron_svd_valid (ops : list (expr T)) :
+  let a := algR (EKron ops) in
+  List.Forall (fun e => svd_ok (a_n (algR e)) (a_dense (algR e)) (a_svd (algR e))) ops ->
+  svd_ok (a_n a) (a_dense a) (a_svd a).
+Proof. by apply: kron_svd_valid_model. Qed.
+
+(* composition of the two: Kronecker product of any number of dense p.d. factors, from the oracle contracts alone *)
+Theorem C06_model_kron_of_dense_root_valid (fs : list (nat * matrix T)) c m :
+  let a := algR (EKron (List.map (fun x => EDense x.1 x.2) fs)) in
+  Z.leb (Z.of_nat (a_n a)) (mcs st) = false ->
+  List.Forall (dense_factor_ok orc) fs ->
+  root_ok (a_n a) (a_dense a) (a_root a c m).
+Proof. by apply: kron_of_dense_root_valid. Qed.
+
+(* BlockDiag / BlockInterleaved _root_decomposition: k >= 1 blocks of one size m whose roots have one inner size q *)
+Theorem C06_model_blockdiag_rootL_valid m q (bs : list (expr T)) :
+  bs <> nil -> blocks_root_ok orc st m q bs ->
+  let a := algR (EBlockDiag bs) in root_ok (a_n a) (a_dense a) (a_rootL a).
+Proof. by apply: blockdiag_rootL_valid_model. Qed.
+
+Theorem C06_model_blockinter_rootL_valid m q (bs : list (expr T)) :
+  bs <> nil -> blocks_root_ok orc st m q bs ->
+  let a := algR (EBlockInter bs) in root_ok (a_n a) (a_dense a) (a_rootL a).
+Proof. by apply: blockinter_rootL_valid_model. Qed.
+
+(* ConstantMul.root_decomposition (c >= 0), AddedDiag._symeig with a constant diagonal *)
+Theorem C06_model_constmul_root_valid (be : expr T) (c : T) ch m :
+  0 <= (c : R) ->
+  root_ok (a_n (algR be)) (a_dense (algR be)) (a_root (algR be) no_cache m) ->
+  let a := algR (EConstMul be c) in root_ok (a_n a) (a_dense a) (a_root a ch m).
+Proof. by apply: constmul_root_valid_model. Qed.
+
+Theorem C06_model_addeddiag_const_symeig_valid (be : expr T) (c : T) :
+  0 <= (c : R) ->
+  symeig_ok (a_n (algR be)) (a_dense (algR be)) (a_symeig (algR be)) ->
+  let a := algR (EAddedDiag be (EConstDiag c (a_n (algR be)))) in symeig_ok (a_n a) (a_dense a) (a_symeig a).
+Proof. by apply: addeddiag_const_symeig_valid_model. Qed.
+
+(* KroneckerProductAddedDiag with a constant diagonal: the Lanczos-route root and inverse root *)
+Theorem C06_model_kpad_const_rootL_valid (ke : expr T) (c : T) :
+  let n := a_n (algR ke) in
+  diag_ok n (a_dense (algR ke)) (a_diag (algR ke) MNone) -> diag_full_ok n (a_dense (algR ke)) (a_diag (algR ke) MNone) ->
+  0 <= (c : R) ->
+  let a := algR (EKpad ke (EConstDiag c n)) in root_ok (a_n a) (a_dense a) (a_rootL a).
+Proof. by move=> n Hd Hf c0; apply: kpad_const_rootL_valid_model. Qed.
+
+Theorem C06_model_kpad_const_rootinvL_valid (ke : expr T) (c : T) :
+  let n := a_n (algR ke) in
+  diag_ok n (a_dense (algR ke)) (a_diag (algR ke) MNone) -> diag_full_ok n (a_dense (algR ke)) (a_diag (algR ke) MNone) ->
+  0 < (c : R) ->
+  let a := algR (EKpad ke (EConstDiag c n)) in rootinv_ok (a_n a) (a_dense a) (a_rootinvL a).
+Proof. by move=> n Hd Hf c0; apply: kpad_const_rootinvL_valid_model. Qed.
+
+(* RECURSIVE statement (structural recursion over the well-formedness derivation `wfe`, nested through List.Forall):
+   for EVERY nesting of Kronecker products (any number of factors at every node, any depth) over dense p.d. leaves and
+   positive-diagonal leaves, with the oracle contracts holding at every node (`dense_factor_ok`, `diag_leaf_ok`,
+   `kron_node_ok`: Lanczos functions / pivoted Cholesky exact on the node's matrix, product not 1 x 1):
+   cholesky() is lower triangular with L L^T = A, _symeig is an orthonormal eigendecomposition with eigenvalues >= 0,
+   _svd satisfies U diag(S) V^T = A, V^T V = I, S >= 0, diagonalization(method) is valid for every method, and
+   root_decomposition(method) satisfies R R^T = A for EVERY method, cache state and settings — on both sides of
+   max_cholesky_size at every node *)
+Theorem C06_model_kron_tree_valid (e : expr T) :
+  wfe orc st e ->
+  let a := algR e in
+  [/\ chol_tri_ok (a_n a) (a_dense a) (pub_cholesky arR a false),
+      symeig_ok (a_n a) (a_dense a) (a_symeig a), svd_ok (a_n a) (a_dense a) (a_svd a),
+      forall m, diag_ok (a_n a) (a_dense a) (a_diag a m)
+    & forall c m, root_ok (a_n a) (a_dense a) (a_root a c m)].
+Proof. by move=> H; have [] := wfe_good H. Qed.
+End ModelClasses.
+
 (* ================================================================== the hypotheses are satisfiable (all sizes) *)
 Section Examples.
 Variables (F : rcfType) (n : nat) (w : 'rV[F]_n).
@@ -421,7 +591,84 @@ have -> : diag_mx (dinvsq d) = 1%:M.
 by rewrite trmx1 !mulmx1 !mul1mx.
 Qed.
 
+(* Section ModelClasses: a 1 x 1 operator [[a]], a > 0, with oracles answering ([a], [[1]]) / [[sqrt a]] satisfies
+   pd_dense, eigh_contract, lz_root_contract and pivchol_contract (so the per-class hypotheses are not vacuous) *)
+Example ex_model_class_hyps (a : carrier F) :
+  0 < (a : F) ->
+  let A : matrix (carrier F) := [:: [:: a]] in
+  let r : matrix (carrier F) := [:: [:: (Num.sqrt (a : F) : carrier F)]] in
+  let ri : matrix (carrier F) := [:: [:: ((Num.sqrt (a : F))^-1 : carrier F)]] in
+  let orc := MkOr (fun _ => ([:: a], [:: [:: (1 : F) : carrier F]])) (fun _ _ => ([:: a], [:: [:: (1 : F) : carrier F]]))
+                  (fun _ _ => (r, ri)) (fun _ _ => r) (fun _ => ri) in
+  [/\ pd_dense 1 A, eigh_contract orc 1 A, lz_root_contract orc 1 A & pivchol_contract orc 1 A].
+Proof.
+move=> a0 A r ri orc.
+have s0 : Num.sqrt (a : F) != 0 by rewrite gt_eqF // sqrtr_gt0.
+have Hr : @mx_of F 1 1 r *m (@mx_of F 1 1 r)^T = @mx_of F 1 1 A.
+  by apply/matrixP => i j; rewrite !mxE big_ord1 !mxE !ord1 /= /ent /= -expr2 sqr_sqrtr // ltW.
+split.
+- by split=> // _; exists a.
+- move=> w0 Q0 [<- <-]; split=> //.
+  + by apply/matrixP => i j; rewrite !mxE big_ord1 !mxE !ord1 /= /ent /= mulr1.
+  + apply/matrixP => i j; rewrite !mxE big_ord1 !mxE big_ord1 !mxE !ord1 /= /ent /vnth /=.
+    by rewrite ?eqxx ?mulr1n mul1r mulr1.
+  + by move=> j; rewrite mxE ord1 /vnth /= ltW.
+- move=> k Rt Ri [<- <-]; split=> //.
+  apply/matrixP => i j; rewrite !mxE big_ord1 !mxE big_ord1 !mxE !ord1 /= /ent /=.
+  by rewrite -invfM -expr2 sqr_sqrtr ?ltW // mulfV // gt_eqF.
+- by move=> k.
+Qed.
+
 (* a real closed field exists (constructed, axiom-free): the real algebraic numbers *)
 Example ex_rcf_inhabited : rcfType.
 Proof. exact: realalg_rcf. Qed.
 End Examples.
+
+(* Theorem C06_model_kron_tree_valid is not vacuous: for any a, b > 0 the tree  Kron [Diag [a; b]]  (a 2 x 2 Kronecker node
+   over a positive-diagonal leaf) is well formed for the oracles that answer with the exact factorisations of diag(a, b) *)
+Section ExampleTree.
+Variable F : rcfType.
+Notation T := (carrier F).
+Notation arF := (ArRcf F).
+Variables (a b : T) (st : settings T).
+Hypothesis a0 : 0 < (a : F).
+Hypothesis b0 : 0 < (b : F).
+Let d : list T := [:: a; b].
+Let D : matrix T := mdiag arF 2 d.
+Let orc : oracles T :=
+  MkOr (fun _ => (d, meye arF 2)) (fun _ _ => (d, meye arF 2))
+       (fun _ _ => (mdiag arF 2 (vsqrt arF d), mdiag arF 2 (vsqrt arF (vmap (frecip arF) d))))
+       (fun _ _ => mdiag arF 2 (vsqrt arF d)) (fun _ => mdiag arF 2 (vsqrt arF (vmap (frecip arF) d))).
+
+Let dpos : forall j, 0 < @rv_of F (length d) d 0 j.
+Proof. by move=> j; rewrite mxE /vnth; case: j => [[|[|j]]] //=. Qed.
+
+Let P : matrix T := a_dense (alg arF orc st (EKron [:: EDiag d])).
+
+Let EP : @mx_of F 2 2 P = @mx_of F 2 2 D.
+Proof.
+apply/matrixP => i j; rewrite !mxE /P /= /kron2 /ent.
+by case: i => [[|[|i]]] //= _; case: j => [[|[|j]]] //= _; rewrite mulr1.
+Qed.
+
+Example ex_kron_tree_wf : wfe orc st (EKron [:: EDiag d]).
+Proof.
+have Hg : @mx_of F 2 2 (mdiag arF 2 (vsqrt arF d)) *m (@mx_of F 2 2 (mdiag arF 2 (vsqrt arF d)))^T = @mx_of F 2 2 D.
+  exact: (diag_sqrt_gram dpos).
+have Hi : @mx_of F 2 2 D *m (@mx_of F 2 2 (mdiag arF 2 (vsqrt arF (vmap (frecip arF) d))) *m
+                             (@mx_of F 2 2 (mdiag arF 2 (vsqrt arF (vmap (frecip arF) d))))^T) = 1%:M.
+  by have := @diag_rootinvL_ok F orc st d dpos _ _ None (erefl _).
+have Hd : forall M0 k, mx_of 2 2 M0 = @mx_of F 2 2 D -> diag_ok 2 M0 (base_lz_diag orc 2 M0 k).
+  move=> M0 k EM w Q kk /= [<- <- <-]; split=> //.
+  - by rewrite EM mx_of_meye trmx1 mulmx1 mul1mx /D mx_of_mdiag.
+  - by move=> j; apply: ltW; exact: dpos.
+apply: WKron.
+- constructor; last by constructor.
+  by apply: WDiag; split=> // k; exact: Hd.
+- split.
+  + by [].
+  + by move=> k; apply: Hd; exact: EP.
+  + by move=> k Rt Ri [<- <-]; rewrite -/P EP; split; [exact: Hg | exact: Hi].
+  + by move=> k; rewrite -/P EP; exact: Hg.
+Qed.
+End ExampleTree.
